@@ -404,7 +404,8 @@ Proof.
   - eapply SF_submit_array; exact H.
   - destruct (bad_graph_rq _ _); [inversion H; subst; eapply (SF_ext _ _ [_]); [reflexivity | reflexivity | apply nojr_same; reflexivity]|].
     eapply SF_submit_graph; exact H.
-  - unfold handle_open in H. inversion H; subst.
+  - unfold handle_open in H.
+    match type of H with Ok ?x = _ => assert (Hx : (s', outs) = x) by congruence; rewrite Hx; clear Hx H end.
     eapply (SF_trans _ (hq_with (s, []) _ _)); [apply SF_quiet; [reflexivity | apply nojr_new_job]|].
     eapply SF_trans; apply SF_emit_quiet; reflexivity.
   - eapply SF_close; exact H.
